@@ -24,6 +24,9 @@ from typing import Callable, Dict, List, Optional
 from .core import AnalysisError, FuncInfo, Project, norm
 
 
+COVER = None  # campaign tools set this to a set: (module, line) of every statement interpreted (tools/stmt_coverage.py)
+
+
 class Unmodelled(Exception):
     def __init__(self, msg, node=None):
         super().__init__(msg + (f" (line {getattr(node, 'lineno', '?')}: {norm(node, 60)})" if node is not None else ""))
@@ -426,6 +429,8 @@ class Evaluator:
             return self.decide(node, env)
 
     def exec_stmt(self, st, env, fi):
+        if COVER is not None and fi is not None:
+            COVER.add((getattr(fi, "module", None), st.lineno))
         if isinstance(st, ast.Expr):
             self.ev(st.value, env, fi)
         elif isinstance(st, ast.Assign):
